@@ -110,6 +110,33 @@ fn conflicts(a: &MMappings, b: &MMappings) -> Vec<String> {
 	out
 }
 
+/// which kinds of comment pairs involving the empty comment occur on shared entries (input distribution)
+fn empty_doc_pairs(a: &MMappings, b: &MMappings) -> BTreeSet<&'static str> {
+	let mut out = BTreeSet::new();
+	let mut see = |x: &Option<S>, y: &Option<S>| {
+		let e = |d: &Option<S>| d.as_ref().is_some_and(|s| s.is_empty());
+		match (x, y) {
+			(Some(_), None) if e(x) => { out.insert("docpair:A empty, B absent"); }
+			(None, Some(_)) if e(y) => { out.insert("docpair:A absent, B empty"); }
+			(Some(_), Some(_)) if e(x) && e(y) => { out.insert("docpair:both empty"); }
+			(Some(_), Some(_)) if e(x) || e(y) => { out.insert("docpair:empty against text (conflict)"); }
+			_ => {}
+		}
+	};
+	see(&a.doc, &b.doc);
+	for ca in &a.classes {
+		let Some(cb) = b.classes.iter().find(|c| ckey(c) == ckey(ca)) else { continue };
+		see(&ca.doc, &cb.doc);
+		for fa in &ca.fields { if let Some(fb) = cb.fields.iter().find(|f| fkey(f) == fkey(fa)) { see(&fa.doc, &fb.doc); } }
+		for ma in &ca.methods {
+			let Some(mb) = cb.methods.iter().find(|m| mkey(m) == mkey(ma)) else { continue };
+			see(&ma.doc, &mb.doc);
+			for pa in &ma.params { if let Some(pb) = mb.params.iter().find(|p| p.index == pa.index) { see(&pa.doc, &pb.doc); } }
+		}
+	}
+	out
+}
+
 // ---------- projections of the implementation's answer ----------
 fn mask(dx: &Option<S>, dy: &Option<S>) -> Option<S> { if dx.is_none() { None } else { dy.clone() } }
 fn pick(n: &NamesRow, i: usize) -> NamesRow { vec![n[0].clone(), n[i].clone()] }
@@ -263,17 +290,39 @@ fn g_case_t(a: &MMappings, b: &MMappings, got: &Option<MMappings>) -> String {
 const CLS2: [&str; 8] = ["net/minecraft/Foo", "Bar", "a/b/C", "Foo$Inner", "X", "Ü", "pkg/Thing", "Q$1"];
 const MEM2: [&str; 8] = ["getValue", "name", "count", "run", "x", "field_1", "method_2", "π"];
 const PAR2: [&str; 5] = ["value", "index", "p", "arg0", "名"];
-const DOCS: [&str; 6] = ["from B", "a comment", "two\nlines", "x", "B's words", "ünï"];
+const DOCS: [&str; 9] = ["from B", "a comment", "two\nlines", "x", "B's words", "ünï", "", " ", "a comment "];
 
 fn second(rng: &mut Rng, pool: &[&str]) -> Option<S> { if rng.chance(1, 4) { None } else { Some(cps_str(*rng.pick(pool))) } }
 /// the comment B gives to an entry A also has: none / the same / (rarely here) another one
 fn doc_b(rng: &mut Rng, a: &Option<S>, docs: bool) -> Option<S> {
 	if !docs { return None; }
-	match rng.below(8) {
+	match rng.below(9) {
 		0 | 1 => a.clone(),
 		2 => Some(cps_str(*rng.pick(&DOCS[..]))),
+		3 => Some(vec![]),                      // the empty comment is a comment: Some("") is not None
 		_ => None,
 	}
+}
+/// sprinkle empty comments over A (the shared generator never produces Some(""))
+fn empty_docs(rng: &mut Rng, m: &mut MMappings) {
+	let mut e = |d: &mut Option<S>| if rng.chance(1, 7) { *d = Some(vec![]); };
+	e(&mut m.doc);
+	for c in &mut m.classes { e(&mut c.doc); for f in &mut c.fields { e(&mut f.doc); } for me in &mut c.methods { e(&mut me.doc); for p in &mut me.params { e(&mut p.doc); } } }
+}
+/// a comment different from `d` (Some) — in every way two comments can differ, not only by a suffix
+fn other_doc(rng: &mut Rng, d: &Option<S>) -> S {
+	let s = d.clone().unwrap_or_default();
+	let v: S = match rng.below(8) {
+		0 => { let mut t = s.clone(); t.push('!' as u32); t }                         // suffix
+		1 => { let mut t = vec!['!' as u32]; t.extend(&s); t }                        // prefix
+		2 => vec![],                                                                  // empty against non-empty
+		3 => { let mut t = s.clone(); t.push(' ' as u32); t }                         // trailing blank
+		4 => { let mut t = s.clone(); if let Some(c) = t.last_mut() { *c ^= 0x20; } t } // last character changed (case)
+		5 => { let mut t = s.clone(); if !t.is_empty() { let i = t.len() / 2; t[i] = t[i].wrapping_add(1); } t } // a character in the middle
+		6 => { let mut t = s.clone(); t.pop(); t }                                    // proper prefix
+		_ => cps_str("something else entirely"),
+	};
+	if v != s { v } else { let mut t = s; t.push('?' as u32); t }
 }
 
 /// B derived from A's source keys: keep some entries (new b-names, own comments), drop some,
@@ -347,10 +396,24 @@ fn sanitize(rng: &mut Rng, a: &MMappings, b: &mut MMappings) {
 const KINDS: [&str; 8] = ["ns", "doc-top", "doc-class", "doc-field", "doc-method", "doc-param", "param-first-name", "param-first-name-absent"];
 /// make sure a shared path down to a parameter exists, then inject exactly one conflict of the kind
 fn inject(rng: &mut Rng, a: &mut MMappings, b: &mut MMappings, kind: &str) {
-	let other = |d: &Option<S>| -> S { let mut s = d.clone().unwrap_or_default(); s.push('!' as u32); s };
+	let mut r2 = rng.fork(17);
+	let mut other = move |d: &Option<S>| -> S { other_doc(&mut r2, d) };
+	// the comment A gets when it has none: sometimes the empty comment (still a comment, still a conflict)
+	let seed_doc = |rng: &mut Rng, what: &str| if rng.chance(1, 4) { Some(vec![]) } else { Some(cps_str(what)) };
 	match kind {
-		"ns" => { b.ns[0] = cps_str(*rng.pick(&["obf", "Official", "official ", "o"][..])); return; }
-		"doc-top" => { a.doc = Some(cps_str("top of A")); b.doc = Some(cps_str("top of B")); return; }
+		"ns" => {
+			// B's first namespace differs from A's: an unrelated name, or a name that occurs elsewhere in the
+			// pair (A's second namespace; A's first namespace then sits in B's SECOND position or nowhere)
+			match rng.below(6) {
+				0 | 1 => { b.ns[0] = cps_str(*rng.pick(&["obf", "Official", "official ", "o"][..])); }
+				2 => { b.ns = vec![a.ns[1].clone(), a.ns[0].clone()]; }          // (s,a) x (a,s)
+				3 => { b.ns = vec![b.ns[1].clone(), a.ns[0].clone()]; }          // (s,a) x (b,s)
+				4 => { b.ns[0] = a.ns[1].clone(); }                              // (s,a) x (a,b)
+				_ => { let t = a.ns[0].clone(); a.ns = vec![t.clone(), t.clone()]; b.ns = vec![b.ns[1].clone(), t]; }            // (s,s) x (b,s)
+			}
+			return;
+		}
+		"doc-top" => { if a.doc.is_none() { a.doc = seed_doc(rng, "top of A"); } b.doc = Some(other(&a.doc)); return; }
 		_ => {}
 	}
 	// a shared class
@@ -365,7 +428,7 @@ fn inject(rng: &mut Rng, a: &mut MMappings, b: &mut MMappings, kind: &str) {
 	let ib = b.classes.iter().position(|d| ckey(d) == ckey(&a.classes[ia])).unwrap();
 	let (ca, cb) = (&mut a.classes[ia], &mut b.classes[ib]);
 	match kind {
-		"doc-class" => { if ca.doc.is_none() { ca.doc = Some(cps_str("class comment")); } cb.doc = Some(other(&ca.doc)); }
+		"doc-class" => { if ca.doc.is_none() { ca.doc = seed_doc(rng, "class comment"); } cb.doc = Some(other(&ca.doc)); }
 		"doc-field" => {
 			if !ca.fields.iter().any(|f| cb.fields.iter().any(|g| fkey(f) == fkey(g))) {
 				if ca.fields.is_empty() { ca.fields.push(MField { desc: cps_str("I"), names: vec![Some(cps_str("f")), None], doc: None }); }
@@ -375,7 +438,7 @@ fn inject(rng: &mut Rng, a: &mut MMappings, b: &mut MMappings, kind: &str) {
 			}
 			let fa = ca.fields.iter_mut().find(|f| cb.fields.iter().any(|g| fkey(f) == fkey(g))).unwrap();
 			let fb = cb.fields.iter_mut().find(|g| fkey(g) == fkey(fa)).unwrap();
-			if fa.doc.is_none() { fa.doc = Some(cps_str("field comment")); }
+			if fa.doc.is_none() { fa.doc = seed_doc(rng, "field comment"); }
 			fb.doc = Some(other(&fa.doc));
 		}
 		_ => {
@@ -388,7 +451,7 @@ fn inject(rng: &mut Rng, a: &mut MMappings, b: &mut MMappings, kind: &str) {
 			let ma = ca.methods.iter_mut().find(|f| cb.methods.iter().any(|g| mkey(f) == mkey(g))).unwrap();
 			let mb = cb.methods.iter_mut().find(|g| mkey(g) == mkey(ma)).unwrap();
 			if kind == "doc-method" {
-				if ma.doc.is_none() { ma.doc = Some(cps_str("method comment")); }
+				if ma.doc.is_none() { ma.doc = seed_doc(rng, "method comment"); }
 				mb.doc = Some(other(&ma.doc));
 				return;
 			}
@@ -400,7 +463,7 @@ fn inject(rng: &mut Rng, a: &mut MMappings, b: &mut MMappings, kind: &str) {
 			let pa = ma.params.iter_mut().find(|p| mb.params.iter().any(|q| q.index == p.index)).unwrap();
 			let pb = mb.params.iter_mut().find(|q| q.index == pa.index).unwrap();
 			match kind {
-				"doc-param" => { if pa.doc.is_none() { pa.doc = Some(cps_str("parameter comment")); } pb.doc = Some(other(&pa.doc)); }
+				"doc-param" => { if pa.doc.is_none() { pa.doc = seed_doc(rng, "parameter comment"); } pb.doc = Some(other(&pa.doc)); }
 				"param-first-name" => { pa.names[0] = Some(cps_str("p_a")); pb.names[0] = Some(cps_str("p_b")); }
 				_ => { if rng.chance(1, 2) { pa.names[0] = Some(cps_str("p_a")); pb.names[0] = None; } else { pa.names[0] = None; pb.names[0] = Some(cps_str("p_b")); } }
 			}
@@ -447,6 +510,7 @@ fn through(r: &mut Report, stream: &str, a: &MMappings, b: &MMappings) {
 	for l in 0..4 { for s in 0..3 { if prof[l * 3 + s] { r.count(&format!("overlap:{}:{}", LV[l], SD[s])); } } }
 	if (0..4).all(|l| (0..3).all(|s| prof[l * 3 + s])) { r.count("overlap:all-three-kinds-at-all-four-levels"); }
 	for k in cf.iter().collect::<BTreeSet<_>>() { r.count(&format!("conflict:{k}")); }
+	for k in empty_doc_pairs(a, b) { r.count(k); }
 
 	match &got {
 		Err(p) => { r.count("result:panic"); vio(r, format!("Mappings::merge panicked: {p}"), a, b, "panic"); }
@@ -460,10 +524,14 @@ fn through(r: &mut Report, stream: &str, a: &MMappings, b: &MMappings) {
 			let shown = dump(m);
 			if !cf.is_empty() { vio(r, format!("merge returned Ok although the pair conflicts ({})", cf.join(",")), a, b, &shown); }
 			if !desync.is_empty() { vio(r, format!("result has IndexMap keys that differ from the keys of their nodes: {}", desync.join("; ")), a, b, &shown); }
+			// The property promises keys, columns, comments, projections and errors - not an iteration order.  The
+			// oracle therefore compares up to the order of every map; whether the order is also the code's
+			// (A's order, then B-only) is counted here and compared exactly in the correspondence (CMerge), where a
+			// difference is a model/implementation disagreement, not a property violation.
 			match &want {
-				Ok(w) if w == m => {}
-				Ok(w) if w.equiv(m) => vio(r, "merge result has the reference join's content but not its order (A's order, then B-only)".into(), a, b, &shown),
-				Ok(_) => vio(r, "merge result differs from the reference join".into(), a, b, &shown),
+				Ok(w) if w == m => r.count("order:result in the reference join's order"),
+				Ok(w) if w.equiv(m) => r.count("order:result has the reference join's content in another order (not a property violation)"),
+				Ok(_) => vio(r, "merge result differs from the reference join (compared up to the order of entries)".into(), a, b, &shown),
 				Err(e) => vio(r, format!("merge returned Ok, the reference join fails ({e})"), a, b, &shown),
 			}
 			// union of keys at every level, no duplicates
@@ -474,10 +542,14 @@ fn through(r: &mut Report, stream: &str, a: &MMappings, b: &MMappings) {
 			if m.ns != vec![a.ns[0].clone(), a.ns[1].clone(), b.ns[1].clone()] { vio(r, "namespaces of the result are not (s, a, b)".into(), a, b, &shown); }
 			for bad in check_columns(a, b, m) { vio(r, format!("column law: {bad}"), a, b, &shown); }
 			// projections
-			if restrict(m, 1, a) != *a { vio(r, "projection onto (s,a), restricted to A's keys and A's comments, is not A".into(), a, b, &shown); }
-			if !restrict(m, 2, b).equiv(b) { vio(r, "projection onto (s,b), restricted to B's keys and B's comments, is not B".into(), a, b, &shown); }
+			// projections: up to the order of entries (the order laws C09_merge_restrict / C09_merge_restrict_b are
+			// theorems about the model, tied by the exact correspondence; here they are only counted)
+			let ra = restrict(m, 1, a);
+			if !ra.equiv(a) { vio(r, "projection onto (s,a), restricted to A's keys and A's comments, is not A (up to order)".into(), a, b, &shown); }
 			let rb = restrict(m, 2, b);
-			if rb != reorder(a, b) { vio(r, "projection onto (s,b), restricted to B's keys and B's comments, is not B reordered (shared entries in A's order, then the rest in B's order)".into(), a, b, &shown); }
+			if !rb.equiv(b) { vio(r, "projection onto (s,b), restricted to B's keys and B's comments, is not B (up to order)".into(), a, b, &shown); }
+			r.count(if ra == *a { "restrict_a:same order as A" } else { "restrict_a:order differs from A (not a property violation)" });
+			r.count(if rb == reorder(a, b) { "restrict_b:is B reordered (shared entries in A's order first)" } else { "restrict_b:is not the reordered B (not a property violation)" });
 			if rb != *b { r.count("restrict_b:order differs from B"); } else { r.count("restrict_b:same order as B"); }
 		}
 	}
@@ -491,18 +563,54 @@ fn through(r: &mut Report, stream: &str, a: &MMappings, b: &MMappings) {
 pub fn run(ctx: &Ctx) -> anyhow::Result<Report> {
 	let mut r = Report::new("C09", "C09.Run");
 	let mut rng = Rng::new(ctx.seed);
-	r.rule = "pairs (A over (s,a), B over (s,b)): A from the shared mapping-set generator; B derived from A's source keys (each class/field/method/parameter kept with new b-name and own comment, dropped, or added from an independent set; B's order shuffled). Streams: clean (all conflicts removed), one injected conflict of each documented kind (first namespace, comment at top/class/field/method/parameter level, parameter first name different / absent on one side), raw (whatever the derivation produced), edge pairs (empty, identical, disjoint), the repository's fixture. Every pair goes through Mappings::merge, an independent reference join, the key-union, column, projection and error-iff-conflict oracles, and into Coq as a CMerge case (exact comparison incl. order). Non-trivial: at least one entry in A or B; distinct by (A,B).".into();
+	r.rule = "pairs (A over (s,a), B over (s,b)): A from the shared mapping-set generator; B derived from A's source keys (each class/field/method/parameter kept with new b-name and own comment, dropped, or added from an independent set; B's order shuffled). Comments include the empty comment Some(\"\") on either or both sides (against absent, empty and text). Streams: clean (all conflicts removed), one injected conflict of each documented kind (first namespace - an unrelated name, or B's namespaces a permutation of / overlapping with A's: (s,a)x(a,s), (s,a)x(b,s), (s,a)x(a,b), (s,s)x(b,s); comment at top/class/field/method/parameter level, the two comments differing by suffix, prefix, emptiness, trailing blank, one character, truncation or entirely; parameter first name different / absent on one side), namespaces (all 81 assignments of three names to the four namespace positions on pairs that otherwise merge: Err exactly when the FIRST namespaces differ), raw (whatever the derivation produced), edge pairs (empty, identical, disjoint), the repository's fixture (VERIF_REPO; a note if missing). Every pair goes through Mappings::merge, an independent reference join, the key-union, column, projection and error-iff-conflict oracles - all compared up to the order of entries, the property promises no iteration order - and into Coq as a CMerge case (exact comparison incl. order: there the model follows the code, and an order difference is a model/implementation disagreement, not a property violation). Non-trivial: at least one entry in A or B; distinct by (A,B).".into();
 
 	// 0. the repository's own fixture
 	{
-		let ra = quill::tiny_v2::read::<2, (NsS, NsA)>(std::fs::read("/repo/quill/tests/merge_input_a.tiny")?.as_slice());
-		let rb = quill::tiny_v2::read::<2, (NsS, NsB)>(std::fs::read("/repo/quill/tests/merge_input_b.tiny")?.as_slice());
-		if let (Ok(qa), Ok(qb)) = (ra, rb) {
-			let mut d = vec![];
-			let (a, b) = (from_quill(&qa, &mut d), from_quill(&qb, &mut d));
-			through(&mut r, "fixture", &a, &b);
-			through(&mut r, "fixture", &a, &a);
-		} else { r.notes.push("fixture files not readable".into()); }
+		// read from the tree under test (VERIF_REPO); a missing / renamed / unparsable fixture is a note, not a failure
+		let repo = std::env::var("VERIF_REPO").unwrap_or_else(|_| "/repo".into());
+		let (pa, pb) = (format!("{repo}/quill/tests/merge_input_a.tiny"), format!("{repo}/quill/tests/merge_input_b.tiny"));
+		match (std::fs::read(&pa), std::fs::read(&pb)) {
+			(Ok(ta), Ok(tb)) => {
+				let ra = guarded(AssertUnwindSafe(|| quill::tiny_v2::read::<2, (NsS, NsA)>(ta.as_slice()).ok())).ok().flatten();
+				let rb = guarded(AssertUnwindSafe(|| quill::tiny_v2::read::<2, (NsS, NsB)>(tb.as_slice()).ok())).ok().flatten();
+				if let (Some(qa), Some(qb)) = (ra, rb) {
+					let mut d = vec![];
+					let (a, b) = (from_quill(&qa, &mut d), from_quill(&qb, &mut d));
+					through(&mut r, "fixture", &a, &b);
+					through(&mut r, "fixture", &a, &a);
+				} else { r.notes.push(format!("fixture files {pa} / {pb} are not readable as tiny v2: skipped")); }
+			}
+			(ea, eb) => r.notes.push(format!("fixture files not found: {pa} ({}), {pb} ({}): skipped", ea.err().map_or("ok".into(), |e| e.to_string()), eb.err().map_or("ok".into(), |e| e.to_string()))),
+		}
+	}
+
+	// 0b. namespaces: every assignment of three names to (A.first, A.second, B.first, B.second) - B's namespaces a
+	// permutation of / overlapping with A's, a name twice on a side - on pairs that otherwise merge.  Err is required
+	// exactly when the FIRST namespaces differ, wherever else the names occur.
+	{
+		let names = ["official", "intermediary", "named"];
+		let mut cfg = GenCfg::new(2); cfg.max_classes = 2; cfg.max_members = 2; cfg.max_params = 2;
+		let mut pairs: Vec<(MMappings, MMappings)> = vec![];
+		for _ in 0..(if ctx.thorough { 6 } else { 2 }) {
+			let a = gen_mappings(&mut rng, &cfg);
+			let mut b = derive_b(&mut rng, &a, &cfg);
+			sanitize(&mut rng, &a, &mut b);
+			pairs.push((a, b));
+		}
+		for (a0, b0) in &pairs {
+			for k in 0..81usize {
+				let (mut a, mut b) = (a0.clone(), b0.clone());
+				a.ns = vec![cps_str(names[k % 3]), cps_str(names[k / 3 % 3])];
+				b.ns = vec![cps_str(names[k / 9 % 3]), cps_str(names[k / 27 % 3])];
+				let shape = format!("ns-table:first {}; A.first {} B; A.second {} B.first",
+					if a.ns[0] == b.ns[0] { "equal" } else { "differ" },
+					if a.ns[0] == b.ns[1] { "is the second of" } else { "is not the second of" },
+					if a.ns[1] == b.ns[0] { "is" } else { "is not" });
+				r.count(&shape);
+				through(&mut r, "namespaces", &a, &b);
+			}
+		}
 	}
 
 	let n = if ctx.thorough { 9000 } else { 2400 };
@@ -512,8 +620,9 @@ pub fn run(ctx: &Ctx) -> anyhow::Result<Report> {
 		if ctx.thorough && i % 50 == 0 { cfg.max_classes = 14; }
 		let mut a = gen_mappings(&mut rng, &cfg);
 		if cfg.docs && rng.chance(1, 6) { a.doc = Some(cps_str("about this set")); }
+		if cfg.docs && i % 3 == 1 { empty_docs(&mut rng, &mut a); }
 		let mut b = derive_b(&mut rng, &a, &cfg);
-		if cfg.docs && rng.chance(1, 6) { b.doc = if rng.chance(1, 2) { a.doc.clone() } else { Some(cps_str("about B")) }; }
+		if cfg.docs && rng.chance(1, 6) { b.doc = match rng.below(4) { 0 | 1 => a.doc.clone(), 2 => Some(vec![]), _ => Some(cps_str("about B")) }; }
 		match i % 10 {
 			0..=4 => { sanitize(&mut rng, &a, &mut b); through(&mut r, "clean", &a, &b); }
 			5..=7 => {
